@@ -4,7 +4,7 @@ set_public_inputs, set_private_inputs, execute_all, execute_alu_op}."""
 import re
 
 from vf.extract import extract_item, match_brace
-from vf.unit import Unit, unget_or_insert
+from vf.unit import Unit, unget_or_insert, inline_thunks, unok_or_else_q
 
 PRELUDE = r'''
 #![allow(unused_imports, unused_variables, dead_code, unused_mut, unused_parens)]
@@ -100,9 +100,12 @@ pub struct CircuitRunner<'a, F> {
     pub witness: Vec<Option<F>>,
     pub witness_rewrite: Option<HashMap<WitnessId, WitnessId>>,
     pub non_primitive_op_private_data: Vec<Option<NpoPrivateData>>,
+    pub non_primitive_op_index_by_id: Vec<Option<usize>>,
     pub op_states: OpStateMap,
 }
 
+/// `v.get(i).and_then(|x| *x)`
+pub fn op_index_lookup(v: &Vec<Option<usize>>, i: usize) -> (r: Option<usize>) ensures r == (if i < v@.len() { v@[i as int] } else { None }) { if i < v.len() { v[i] } else { None } }
 pub mod ax {
     use super::*;
     pub broadcast axiom fn witness_id_key_model()
@@ -285,6 +288,24 @@ def build():
     sp = inputs_fn('set_public_inputs', 'public_rows', 'public_flat_len')
     spr = inputs_fn('set_private_inputs', 'private_input_rows', 'private_flat_len')
 
+    # ---------------------------------------------------------------- set_private_data: the private-data channel of the non-primitive ops (a second payload for one op is a conflict)
+    pd = u.extract(R, IMPL, 'set_private_data', 'CircuitRunner::set_private_data')
+    inline_thunks(pd)
+    pd.erase_struct_error('CircuitError::NonPrimitiveOpIdOutOfRange', 'CircuitError::Other')
+    pd.erase_struct_error('CircuitError::IncorrectNonPrimitiveOpPrivateData', 'CircuitError::Other')
+    pd.rewrite_re('R6', r'self\s*\.non_primitive_op_index_by_id\s*\.get\(op_id\.0 as usize\)\s*\.and_then\(\|x\| \*x\)', 'op_index_lookup(&self.non_primitive_op_index_by_id, op_id.0 as usize)', min_count=0)
+    unok_or_else_q(pd)
+    pd.rewrite_re('R6', r'let (\w+) = ([\w.\s]+?)\s*\.get_mut\(([^;]+?)\)\s*\.ok_or(?:_else)?\(([^;]+?)\)\?;\s*\*\1 = ([^;]+);',
+                  lambda m: f'if ({m.group(3)}) < {m.group(2).strip()}.len() {{ {m.group(2).strip()}.set({m.group(3)}, {m.group(5)}); }} else {{ return Err({m.group(4).removeprefix("||").strip()}); }}', flags_dotall=True, min_count=0)
+    pd.rewrite_re('R7', r'(self\.non_primitive_op_private_data)\[([^\]]+)\] = (Some\(\w+\));', r'\1.set(\2, \3);', min_count=0)
+    pd.rewrite_re('R11', r'let Op::NonPrimitiveOpWithExecutor \{ executor, \.\. \} = &self\.circuit\.ops\[op_idx\] else \{', 'let Op::NonPrimitiveOpWithExecutor { .. } = &self.circuit.ops[op_idx] else {', min_count=0)
+    pd.requires('index_table_points_into_the_op_list', 'forall|i: int| 0 <= i < old(self).non_primitive_op_index_by_id@.len() ==> ((#[trigger] old(self).non_primitive_op_index_by_id@[i]) matches Some(k) ==> k < old(self).circuit.ops@.len())')
+    PD, PD0 = 'final(self).non_primitive_op_private_data@', 'old(self).non_primitive_op_private_data@'
+    pd.ensures('a_second_payload_for_the_same_op_is_an_error', f'(op_id.0 as int) < {PD0}.len() && {PD0}[op_id.0 as int] is Some ==> ret is Err')
+    pd.ensures('ok_stores_the_payload_in_the_ops_own_empty_slot', f'ret is Ok ==> (op_id.0 as int) < {PD0}.len() && {PD0}[op_id.0 as int] is None && {PD} == {PD0}.update(op_id.0 as int, Some(private_data))')
+    pd.ensures('err_changes_nothing', f'ret is Err ==> {PD} == {PD0}')
+    pd.ensures('frame', 'final(self).witness@ == old(self).witness@ && final(self).circuit == old(self).circuit && final(self).non_primitive_op_index_by_id == old(self).non_primitive_op_index_by_id')
+
     # ---------------------------------------------------------------- execute_alu_op
     ea = u.extract(R, IMPL, 'execute_alu_op', 'CircuitRunner::execute_alu_op')
     ea.rewrite_re('R11', r'\bF::ZERO\b', 'F::zero()')
@@ -405,7 +426,7 @@ def build():
     ])
 
     u.text("verus! {\nimpl<'a, F: Field> CircuitRunner<'a, F> {")
-    for f in (sw, wv, gw, sp, spr, ea, ex, rn):
+    for f in (sw, wv, gw, sp, spr, pd, ea, ex, rn):
         u.emit(f)
     u.text('}\n}')
     return u
